@@ -16,7 +16,8 @@ SPEC = {"module": "models.ormmodel", "profile": "handwritten", "order": [], "cla
     {"name": "ShapeBase", "parent": None, "fields": [f("uid", "int"), f("name", "str"), f("turn", "int"), f("ports", "list_ref", "Port")]},
     {"name": "Circle", "parent": "ShapeBase", "fields": [f("r", "float"), f("center", "opt_ref", "Vec")]},
     {"name": "Ring", "parent": "Circle", "fields": [f("thick", "float")]},
-    {"name": "Sheet", "parent": None, "fields": [f("uid", "int"), f("shapes", "list_ref", "ShapeBase")]},
+    {"name": "Stamp", "parent": None, "fields": [f("uid", "int"), f("where", "opt_ref", "Vec"), f("marks", "list_ref", "Port"), f("text", "str")]},
+    {"name": "Sheet", "parent": None, "fields": [f("uid", "int"), f("shapes", "list_ref", "ShapeBase"), f("stamp", "opt_ref", "Stamp")]},
 ]}
 SPEC["order"] = [c["name"] for c in SPEC["classes"]]
 # references to an alternatively mapped class that takes part in reference cycles (listed finding of C04/C05)
